@@ -309,18 +309,65 @@ Proof.
   rewrite (flat_items_fields d fs [] inst Hm). unfold spell. apply map_ext. intros [k v]. reflexivity.
 Qed.
 
-(** Conversely: the flattened form produced for an object, sent back in ANY order of its pairs,
+(** every spelled pair carries at least one value *)
+Lemma items_values_nonempty strict : forall t f sv, conf strict t sv = true ->
+  forall it, In it (items_ty t f sv) -> snd it <> [].
+Proof.
+  induction t as [arr | arr sub IH] using ty_ind'; intros f sv Hc it Hin.
+  - destruct sv; simpl in Hc; try discriminate; destruct arr; simpl in Hc; try discriminate; simpl in Hin;
+      try contradiction.
+    + destruct Hin as [<- | []]. discriminate.
+    + destruct Hin as [<- | []]. simpl. destruct l; [discriminate | discriminate].
+    + apply in_map_iff in Hin. destruct Hin as [js [<- _]]. discriminate.
+  - assert (Hfields : forall vs, conf_fields strict sub vs = true ->
+              forall it', In it' (items_fields sub vs) -> snd it' <> []).
+    { clear -IH. induction sub as [|[k t] sub IHs]; intros [|v vs] Hc it' Hin; simpl in *; try contradiction.
+      apply andb_true_iff in Hc. destruct Hc as [Hc1 Hc2]. inversion IH; subst. cbn [snd] in *.
+      apply in_app_or in Hin. destruct Hin as [Hin | Hin].
+      - eapply H1; eauto.
+      - eapply IHs; eauto. }
+    rewrite conf_obj in Hc. rewrite items_ty_obj in Hin. destruct sv; try contradiction.
+    + destruct arr; simpl in Hc; try discriminate. apply andb_true_iff in Hc. destruct Hc as [Hc _].
+      apply in_map_iff in Hin. destruct Hin as [it' [<- Hit']]. simpl. eapply Hfields; eauto.
+    + destruct arr; simpl in Hc; try discriminate. apply andb_true_iff in Hc. destruct Hc as [_ Hel].
+      destruct l as [|p l'].
+      * destruct Hin as [<- | []]. discriminate.
+      * apply in_flat_map in Hin. destruct Hin as [[j e] [Hje Hin]]. destruct e; try contradiction.
+        cbn [snd fst] in Hin. apply in_map_iff in Hin. destruct Hin as [it' [<- Hit']].
+        rewrite forallb_forall in Hel. specialize (Hel _ Hje). simpl in Hel.
+        apply andb_true_iff in Hel. destruct Hel as [Hcf _]. simpl. eapply Hfields; eauto.
+Qed.
+
+Lemma spell_values_nonempty strict d : forall fs vs, conf_fields strict fs vs = true ->
+  forall kv, In kv (spell d fs vs) -> snd kv <> [].
+Proof.
+  unfold spell. intros fs vs Hc kv Hin. apply in_map_iff in Hin. destruct Hin as [it [<- Hit]]. simpl.
+  revert vs Hc it Hit. induction fs as [|[k t] fs IH]; intros [|v vs] Hc it Hin; simpl in *; try contradiction.
+  apply andb_true_iff in Hc. destruct Hc as [Hc1 Hc2]. apply in_app_or in Hin. destruct Hin as [Hin | Hin].
+  - eapply items_values_nonempty; eauto.
+  - eapply IH; eauto.
+Qed.
+
+Lemma filter_all {A} (p : A -> bool) l : (forall x, In x l -> p x = true) -> filter p l = l.
+Proof.
+  induction l as [|x l IH]; intros H; simpl; [reflexivity|].
+  rewrite (H x (or_introl eq_refl)). f_equal. apply IH. intros y Hy. apply H. now right.
+Qed.
+
+(** Conversely: the flattened form produced for an object, sent back as pairs in ANY order,
     maps back to an equal object (both strict_arrays settings). *)
 Theorem flatten_roundtrip : forall strict d fs inst doc,
   wf_sig d fs = true -> typed_obj fs inst = true ->
-  Permutation doc (flat_doc (flatten d fs inst)) ->
+  Permutation doc (sent_doc (flatten d fs inst)) ->
   exists o, unflatten true strict d fs doc = Ok o /\ erase_obj o = inst.
 Proof.
   intros strict d fs inst doc Hwf Hto Hp.
   destruct (wf_sig_parts d fs Hwf) as [Hd [Hnd [Hnb [Hwff Hsti]]]].
   destruct (typed_obj_members fs inst Hto) as [_ Hm].
-  rewrite (flatten_is_spelling d fs inst Hto) in Hp.
-  destruct (request_fidelity strict d fs (sparse_fields fs inst) doc Hwf (conf_sparse_fields strict fs inst Hwff Hm) Hp)
-    as [o [Ho He]].
+  pose proof (conf_sparse_fields strict fs inst Hwff Hm) as Hc.
+  unfold sent_doc in Hp. rewrite (flatten_is_spelling d fs inst Hto) in Hp.
+  rewrite filter_all in Hp.
+  2:{ intros kv Hkv. pose proof (spell_values_nonempty strict d fs _ Hc kv Hkv). destruct (snd kv); [contradiction | reflexivity]. }
+  destruct (request_fidelity strict d fs (sparse_fields fs inst) doc Hwf Hc Hp) as [o [Ho He]].
   exists o. split; [assumption|]. rewrite He. apply compact_sparse_fields; try assumption. now apply nodupb_NoDup.
 Qed.
